@@ -553,6 +553,6 @@ impl Family for NamesFamily {
         out.into_iter().map(|s| serde_json::to_value(s).unwrap()).collect()
     }
     fn watchdog_ms(&self) -> u64 {
-        120_000
+        90_000
     }
 }
